@@ -104,7 +104,7 @@ Print Assumptions C17_wiring.
 (* ---- tie to the source: the eight recording operations of AggregatedStats (src/stats/aggregated.rs)
    as translated on this run: any event sequence through the translated add_* methods leaves the
    counters the model's aggregated recorder has ---- *)
-Require RV.Model.GenSupport RV.Gen.Code RV.Proofs.CodeStats RV.Proofs.CodePerClient.
+Require RV.Model.GenSupport RV.Gen.Code RV.Proofs.CodeStats RV.Proofs.CodePerClient RV.Proofs.CodeReporter.
 Theorem C17_translated_aggregated_is_model :
   forall evs c, RV.Proofs.CodeStats.gen_agg_run c evs = Ok (fold_left agg_step evs c).
 Proof. exact RV.Proofs.CodeStats.gen_agg_run_model. Qed.
@@ -147,6 +147,31 @@ Theorem C17_tick_is_the_queue_models_push :
      q_run q' m (lost ++ match o with Some y => [y] | None => [] end) r).
 Proof. exact RV.Proofs.CodeStats.q_run_push_is_send_client_stats. Qed.
 Print Assumptions C17_tick_is_the_queue_models_push.
+
+(* the reporter's side, as translated: ClientStats::merge adds all nine counters when the addresses agree
+   (src/stats/mod.rs), and one pass of Reporter::receive_client_stats (src/stats/reporter.rs: `while let
+   Some(stats) = queue.pop() { for client in stats { entry(client.ip_addr).or_insert_with_key(new).merge(&client) } }`)
+   empties the queue and merges every record of every queued snapshot, oldest first: the QDrain step of the
+   queue model — with C17_translated_tick_is_model both halves of C17_queue_conservation are the code's *)
+Theorem C17_translated_merge_is_model :
+  forall c o, RV.Gen.Code.merge_entry (fst o) c o = cs_merge c (snd o).
+Proof. exact RV.Proofs.CodeReporter.merge_entry_same. Qed.
+Print Assumptions C17_translated_merge_is_model.
+
+Theorem C17_translated_reporter_pass_is_model :
+  forall q m, RV.Gen.Code.gen_receive_client_stats q m = Ok (mksq (sq_cap q) [], rep_receive m (sq_items q)).
+Proof. exact RV.Proofs.CodeReporter.gen_receive_client_stats_model. Qed.
+Print Assumptions C17_translated_reporter_pass_is_model.
+
+Theorem C17_reporter_pass_is_the_queue_models_drain :
+  forall q m lost r,
+  q_run q m lost (QDrain :: r)
+  = match RV.Gen.Code.gen_receive_client_stats q m with
+    | Ok (q', m') => q_run q' m' lost r
+    | _ => (q, m, lost)
+    end.
+Proof. exact RV.Proofs.CodeReporter.q_run_drain_is_receive. Qed.
+Print Assumptions C17_reporter_pass_is_the_queue_models_drain.
 
 (* ---- tie to the source: the integer literals of the functions this property's model stands for
    (private constants, bounds, unit factors; the files are SiteMap.files_C17) are today the ones the
